@@ -48,9 +48,14 @@ def build():
     return os.path.join(core.build_harness(["vh-snapalg"]), "vh-snapalg")
 
 
+def module_of(fam):
+    """The chain families (history-shaped state machine SnapChain.tla) have their own model module."""
+    return "MC_SnapChain.tla" if fam.startswith("Chain") else "MC_SnapAlg.tla"
+
+
 def laws(fam, workers=2, timeout=900):
     """Model-check the laws of a family. Returns TlcResult."""
-    return core.run_tlc("MC_SnapAlg.tla", "MC_%s_laws.cfg" % fam, cwd=SPEC, workers=workers, timeout=timeout,
+    return core.run_tlc(module_of(fam), "MC_%s_laws.cfg" % fam, cwd=SPEC, workers=workers, timeout=timeout,
                         heap="2g", stack="1g", coverage=False, metadir=_uniq("tlc-laws"))
 
 
@@ -68,7 +73,7 @@ def export_and_replay(binp, fam, out, timeout=900):
 def _export_and_replay(binp, fam, out, timeout=900):
     """tlc (export cfg) | vh-snapalg run <out>. Returns number of cases executed."""
     md = _uniq("tlc-exp")
-    cmd = core.tlc_cmd("MC_SnapAlg.tla", "MC_%s_exp.cfg" % fam, workers=1, metadir=md,
+    cmd = core.tlc_cmd(module_of(fam), "MC_%s_exp.cfg" % fam, workers=1, metadir=md,
                        java_opts=["-Xmx2g", "-Xss1g"])
     e = dict(os.environ)
     e.pop("JAVA_TOOL_OPTIONS", None)
@@ -115,6 +120,11 @@ def drive(binp, fam, seed, n, out, timeout=900):
     return {"hang": None, "cases": n}
 
 
+def _chain_continuation(line):
+    """A chain event other than the first of its chain (serde_json writes the keys sorted, no blanks)."""
+    return '"op":"chain"' in line and '"n":1,"op":"chain"' not in line
+
+
 def split(path, parts):
     """Split an NDJSON file into <= parts files of about equal byte size."""
     size = os.path.getsize(path)
@@ -124,11 +134,12 @@ def split(path, parts):
     per = (size + parts - 1) // parts
     outs, cur, cur_sz = [], [], 0
     for ln in lines:
-        cur.append(ln)
-        cur_sz += len(ln) + 1
-        if cur_sz >= per and len(outs) < parts - 1:
+        # the events of one chain stay together (the judge carries the state of the chain)
+        if cur_sz >= per and len(outs) < parts - 1 and not _chain_continuation(ln):
             outs.append(cur)
             cur, cur_sz = [], 0
+        cur.append(ln)
+        cur_sz += len(ln) + 1
     if cur:
         outs.append(cur)
     paths = []
@@ -182,12 +193,26 @@ def case_of(ev):
         return _with_prev({"op": "snap", "adds": ev["adds"], "adds2": ev["adds2"], **({"base": ev["base"]} if "base" in ev else {}),
                 "probe": [[p["ty"], p["i"]] for p in ev.get("probes", [])],
                 "copies": sorted({c["src"] for c in ev.get("copies", [])} | {r["src"] for r in ev.get("rec", [])})}, ev)
+    if op == "chain":
+        # one step; the whole chain is assembled by chain_case() from the events before it
+        return {"op": "chain", **{k: v for k, v in ev.get("hdr", {}).items() if k != "op"}, "steps": [ev["step"]], "n": ev["n"]}
+    if op == "api":
+        return {k: ev[k] for k in ("op", "keys", "kints", "udata", "dpairs", "hw", "items", "probe", "adds", "sprobe", "osz", "osz2", "cap") if k in ev}
     c = {"op": "parse", "kind": ev["kind"], "w": ev["w"], "adds2": ev["adds2"], "osz": ev.get("osz", [])}
     if ev["kind"] in ("si", "sb"):
         c["other"] = ev.get("other", [])
     else:
         c["base"] = ev.get("base", [])
     return _with_prev(c, ev)
+
+
+def chain_case(evs, idx):
+    """The chain up to and including event `idx` (0-based) of the event list."""
+    j = idx
+    while j > 0 and evs[j].get("n", 1) != 1:
+        j -= 1
+    hdr = {k: v for k, v in evs[idx].get("hdr", {}).items() if k != "op"}
+    return {"op": "chain", **hdr, "steps": [e["step"] for e in evs[j:idx + 1]]}
 
 
 def _with_prev(c, ev):
@@ -206,6 +231,10 @@ def shape_of(ev):
     if op == "snap":
         u = {tuple(a["ty"]) for a in ev["adds"] if len(a["ty"]) == 4}
         return "uuid_types=%s" % ("0" if not u else "1" if len(u) == 1 else ">=2")
+    if op == "chain":
+        return "%s:%s" % (ev.get("lvl"), ev.get("step", {}).get("k"))
+    if op == "api":
+        return "api"
     if op == "parse":
         items = None
         if ev["kind"] in ("si", "sb") and ev.get("raw", {}).get("out") == "ok":
@@ -228,6 +257,11 @@ def nontrivial(ev):
         return ev["A"] != ev["B"]
     if op == "snap":
         return any(len(a["ty"]) == 4 for a in ev["adds"])
+    if op == "chain":
+        # a step that carries a delta which changes something (or applies one once more)
+        return ev["step"].get("k") == "again" or len(ev.get("dw", {}).get("v", [])) > 3
+    if op == "api":
+        return True
     return len(ev.get("w", [])) > 0
 
 
@@ -256,6 +290,10 @@ def outcomes_of(ev):
     elif ev.get("op") == "snap":
         out += list(ev.get("outs", []))
         out += [c.get("out", "?") for c in ev.get("copies", [])]
+    elif ev.get("op") == "chain":
+        rc = ev.get("rcv")
+        if isinstance(rc, dict):
+            out.append("chain-" + str(rc.get("apply", rc.get("read", "?"))))
     return out
 
 
@@ -282,6 +320,8 @@ class Run:
         self.drift = {}        # text -> count
         self.traces = 0
         self.outcomes = {}
+        self.chain_steps = 0
+        self.chains = 0
 
     def account(self, results, label):
         ctx = self.ctx
@@ -292,8 +332,16 @@ class Run:
             ctx.coverage["traces_validated_against_impl"] += 1
             evs = core.read_ndjson(r["path"])
             self.events += len(evs)
+            roll = ""
             for ev in evs:
-                d = digest(case_of(ev))
+                if ev.get("op") == "chain":
+                    # a step counts with the chain before it
+                    roll = digest([roll if ev.get("n", 1) != 1 else "", ev.get("hdr"), ev.get("step")])
+                    d = roll
+                    self.chain_steps += 1
+                    self.chains += 1 if ev.get("n", 1) == 1 else 0
+                else:
+                    d = digest(case_of(ev))
                 self.seen.add(d)
                 if nontrivial(ev):
                     self.nontrivial.add(d)
@@ -309,7 +357,8 @@ class Run:
                 key = "%s:%s:%s" % (ev.get("op"), text, shape_of(ev))
                 self.reported[key] = self.reported.get(key, 0) + 1
                 if self.reported[key] == 1:
-                    ctx.report(key, "%s (%s, event %d of %s)" % (text, label, idx, os.path.basename(r["path"])), case_of(ev))
+                    rep = chain_case(evs, idx - 1) if ev.get("op") == "chain" else case_of(ev)
+                    ctx.report(key, "%s (%s, event %d of %s)" % (text, label, idx, os.path.basename(r["path"])), rep)
             ctx.add_run("trace validation: " + label, events=r["events"], complaints=len(r["complaints"]),
                         wall_s=round(r["wall"], 1))
 
@@ -340,6 +389,8 @@ class Run:
             missing = [e for e in ERROR_ALPHABET if self.outcomes.get(e, 0) == 0]
             if missing:
                 ctx.note("vacuity: error classes never produced by the code in this run: %s" % ", ".join(missing))
+        if self.chains:
+            ctx.coverage["chains"] = {"chains": self.chains, "steps": self.chain_steps}
         ctx.coverage["evaluations"] = self.events
         ctx.coverage["distinct_nontrivial"] = len(self.nontrivial)
         ctx.coverage["distinct_cases"] = len(self.seen)
@@ -349,6 +400,15 @@ class Run:
 def _account_laws(ctx, results):
     for fam, res in results:
         ctx.add_states(res, "laws of family %s (MC_%s_laws.cfg)" % (fam, fam))
+        if fam.startswith("Chain"):
+            oos = len(re.findall(r'<<"OUTOFSYNC"', res.out))
+            if oos:
+                errs = {}
+                for m in re.finditer(r'<<"OUTOFSYNC", "(\w+)", "(\w+)">>', res.out):
+                    errs[m.group(1) + ":" + m.group(2)] = errs.get(m.group(1) + ":" + m.group(2), 0) + 1
+                ctx.add_run("out-of-sync applications on the model (family %s)" % fam, steps=oos, outcomes=errs,
+                            harmless=len(re.findall(r'<<"HARMLESS"', res.out)),
+                            wrong_result_with_the_checksum_of_the_target_and_no_warning=len(re.findall(r'<<"UNDETECTED"', res.out)))
         if not res.ok:
             if res.violated:
                 ctx.report("spec-law:%s:%s" % (fam, res.violated), "law %s violated on the model (family %s)" % (res.violated, fam),
@@ -357,7 +417,7 @@ def _account_laws(ctx, results):
                 raise core.ToolError("TLC failed on the laws of %s: %s" % (fam, res.error))
 
 
-def run_all(ctx, run, binp, law_fams, a_fams, b_fam, nb, seeds=1, par=4, law_workers=2):
+def run_all(ctx, run, binp, law_fams, a_fams, b_fam, nb, seeds=1, par=4, law_workers=2, more_b=()):
     """Stage 1 (in parallel): the laws of the families are model-checked, the families are exported
     and replayed on the real code, the random driver records its traces. Stage 2 (in parallel):
     every recorded trace is judged by SnapAlgTrace.tla. Returns the list of direction-B traces."""
@@ -370,7 +430,11 @@ def run_all(ctx, run, binp, law_fams, a_fams, b_fam, nb, seeds=1, par=4, law_wor
             jobs.append(("A", (f, out), ex.submit(export_and_replay, binp, f, out)))
         for s in range(seeds):
             out = os.path.join(ctx.workdir, "B-%s-%d.ndjson" % (b_fam, s))
-            jobs.append(("B", (s, out), ex.submit(drive, binp, b_fam, ctx.seed * 1000 + s, nb, out)))
+            jobs.append(("B", (s, out, b_fam, nb), ex.submit(drive, binp, b_fam, ctx.seed * 1000 + s, nb, out)))
+            # further drivers (random chains, api cases): (family, number of cases)
+            for fam2, n2 in more_b:
+                out2 = os.path.join(ctx.workdir, "B-%s-%d.ndjson" % (fam2, s))
+                jobs.append(("B", (s, out2, fam2, n2), ex.submit(drive, binp, fam2, ctx.seed * 1000 + s, n2, out2)))
         done = [(k, a, fu.result()) for k, a, fu in jobs]
     _account_laws(ctx, [(a, r) for k, a, r in done if k == "law"])
     files = []          # (label, path)
@@ -387,16 +451,17 @@ def run_all(ctx, run, binp, law_fams, a_fams, b_fam, nb, seeds=1, par=4, law_wor
             ctx.add_run("direction A: family %s replayed on the real code" % f, cases=info["cases"], wall_s=round(info["wall"], 1))
             files.append(("A:" + f, out))
         elif k == "B":
-            sd, out = a
+            sd, out, bf, nbf = a
             if info.get("crash"):
-                run.crash(info, "direction B, driver " + b_fam)
+                run.crash(info, "direction B, driver " + bf)
                 continue
             if info["hang"]:
-                run.hang(info["hang"], "direction B, driver " + b_fam)
+                run.hang(info["hang"], "direction B, driver " + bf)
                 continue
-            ctx.add_run("direction B: %d seeded random %s cases of real size" % (nb, b_fam), seed=ctx.seed * 1000 + sd)
-            files.append(("B:" + b_fam, out))
-            b_paths.append(out)
+            ctx.add_run("direction B: %d seeded random %s cases of real size" % (nbf, bf), seed=ctx.seed * 1000 + sd)
+            files.append(("B:" + bf, out))
+            if bf == b_fam:
+                b_paths.append(out)
     # parts in proportion to the size of the files
     # (more parts than processes: the cost of judging is roughly proportional to the bytes, and the
     # few files with 64 KiB events would otherwise be the longest pole)
